@@ -722,10 +722,10 @@ class EStream(Engine):
         e = self._expect_elem(meta, p)
         s = self.s
         st, val = call(s.peek if peek else s.read, fmt)
-        # relaxations (two defensible outcomes): a length-less token given as a Dtype object, or spelled with
-        # surrounding white space, may be read to the end like its plain string spelling or be refused
-        stretchy_obj = (meta['kind'] == 'tok' and meta['len'] is None and (meta.get('obj') or meta.get('ws'))
-                        and token_plan(meta['name'], None)[0] == 'stretchy')
+        # a length-less token given as a Dtype object, or spelled with surrounding white space, is read to the end like
+        # its plain string spelling (readlist always did; read() refused it with an internal TypeError until /repo 'fix:'
+        # removed the difference - the former relaxation is gone)
+        stretchy_obj = False
         if e['out'] == 'ok':
             fam = e['fam']
             n = e['n']
